@@ -16,7 +16,9 @@ from fractions import Fraction
 from pathlib import Path
 
 sys.path.insert(0, str(Path(__file__).resolve().parent))
+sys.path.insert(0, str(Path(__file__).resolve().parent.parent / 'translate'))
 import lib  # noqa
+import c16_bounds  # noqa
 
 PID = 'C16'
 INF = None
@@ -877,7 +879,7 @@ def check_hop(ctx, calls, res):
 
 
 # ------------------------------------------------------------------ shrinking
-def shrink(ctx, c, still_fails, budget=3):
+def shrink(ctx, c, still_fails, budget=2):
     """greedy removal of points; every round evaluates all single removals in one child"""
     cur = c
     for rnd in range(budget):
@@ -961,7 +963,8 @@ def report(ctx, fails, res, do_shrink=True):
         seen.add(key)
         case = strip(c)
         shrunk_from = None
-        if do_shrink and src in ('oracle', 'coq') and c['fn'] in ('knn', 'hd') and len(seen) <= 3:
+        if do_shrink and src in ('oracle', 'coq') and c['fn'] in ('knn', 'hd') and len(seen) <= 1 \
+                and __import__('time').time() - ctx.t0 < 150:
             small = shrink(ctx, c, knn_fails if c['fn'] == 'knn' else hd_fails)
             if small is not c:
                 shrunk_from = {'A': len(c['A']['pts']), 'B': None if c.get('B') is None else len(c['B']['pts'])}
@@ -975,6 +978,63 @@ def report(ctx, fails, res, do_shrink=True):
                       found_input=True, signature=sig,
                       what=f"{c['fn']} on family {fam}: {reason}")
     return n
+
+
+# ------------------------------------------------- translated box-bound kernels
+def translate_bounds(ctx):
+    """regenerate coq/C16/gen/Bounds.v from the current source; returns (ok, pysrc)"""
+    try:
+        fns, consumed, pysrc = c16_bounds.translate(str(lib.REPO))
+        ctx.sources.update(consumed)
+        lib.write_if_changed(lib.COQ / 'C16' / 'gen' / 'Bounds.v', c16_bounds.emit(fns))
+        return True, pysrc
+    except c16_bounds.TranslateError as e:
+        ctx.log('translator failed closed:', e)
+        ctx.notes['translator_error'] = str(e)
+    except SyntaxError as e:
+        ctx.notes['translator_error'] = 'syntax error: ' + str(e)
+    return False, None
+
+
+def validate_translation(ctx, pysrc, n=40):
+    """translator validation: the Python text of each kernel is executed on integer boxes and
+    points; the square of the float it returns must equal the generated Coq function"""
+    import numpy as np
+    rng = ctx.rng
+    items = []
+
+    def rbox():
+        return [rng.randint(-40, 40) for _ in range(3)] + [rng.choice([0, 1, 2, 5, 16])]
+
+    def rpt():
+        return [rng.randint(-60, 60) for _ in range(3)]
+
+    def fq(x):
+        n_, d_ = float(x).as_integer_ratio()
+        return f'(FQ {lib.coq_Z(n_)} {lib.coq_Z(d_)})'
+
+    ns = {}
+    for name, src in pysrc.items():
+        exec(src, ns)        # defines the nested function at module level of ns
+    cid = 0
+    for _ in range(n):
+        a, b, q = rbox(), rbox(), rpt()
+        ns['node_xyzw'] = np.array([b], dtype=float)
+        ns['node_xyzw_A'] = np.array([a], dtype=float)
+        ns['node_xyzw_B'] = np.array([b], dtype=float)
+        cb = '(' + ', '.join(lib.coq_Z(v) for v in b) + ')'
+        ca = '(' + ', '.join(lib.coq_Z(v) for v in a) + ')'
+        r1 = ns['possible_dist_min'](0, float(q[0]), float(q[1]), float(q[2]))
+        items.append((cid, f'dist_ok {fq(r1)} (Fin (gen_possible_dist_min {cb} {cP(q)}))'))
+        r2 = ns['possible_dist_max_node'](0, 0)
+        items.append((cid + 1, f'dist_ok {fq(r2)} (Fin (gen_possible_dist_max_node {ca} {cb}))'))
+        lo, hi = ns['possible_dist_range'](0, float(q[0]), float(q[1]), float(q[2]))
+        items.append((cid + 2, f'dist_ok {fq(lo)} (Fin (fst (gen_possible_dist_range {cb} {cP(q)}))) && '
+                               f'dist_ok {fq(hi)} (Fin (snd (gen_possible_dist_range {cb} {cP(q)})))'))
+        cid += 3
+    failing, ok = coq_failing(ctx, 'ValidateBounds', ['From FV.C16.gen Require Import Bounds.'], items)
+    ctx.notes['translator_validation'] = {'cases': len(items), 'disagreements': len(failing), 'compiled': ok}
+    return not failing and ok
 
 
 # ----------------------------------------------------------------- source sha
@@ -1015,10 +1075,26 @@ def main(ctx):
     except Exception as e:  # noqa
         ctx.notes['source_regions_error'] = str(e)
 
-    proof_ok, log = ctx.build_props('C16/Props.v')
-    if not proof_ok:
-        ctx.notes['build_log_tail'] = log[-1500:]
+    tie_ok, pysrc = translate_bounds(ctx)
+    if tie_ok:
+        proof_ok, log = ctx.build_props('C16/Props.v')
+        if not proof_ok:
+            ctx.notes['build_log_tail'] = log[-1500:]
+    else:
+        proof_ok = False
+        for nm in lib.theorem_names(lib.COQ / 'C16' / 'Props.v'):
+            ctx.obligations.append({'name': nm, 'discharged': False, 'assumptions': [],
+                                    'note': 'translator failed closed'})
     model_ok, _, _ = lib.coq_make(['C16/Model.vo'])
+    valid_ok = True
+    if tie_ok:
+        gen_ok, _, _ = lib.coq_make(['C16/gen/Bounds.vo'])
+        if gen_ok:
+            try:
+                valid_ok = validate_translation(ctx, pysrc)
+            except Exception as e:  # noqa
+                valid_ok = False
+                ctx.notes['translator_validation'] = {'error': repr(e)[:300]}
 
     n_knn, n_hd, n_hop, nmax = (30, 16, 40, 10) if quick else (420, 100, 400, 14)
     calls = []
@@ -1053,7 +1129,17 @@ def main(ctx):
     ctx.notes['search_evaluations'] = ctx.evaluations
     n_bad = report(ctx, fails, res)
 
-    if not proof_ok and n_bad == 0:
+    if not tie_ok and n_bad == 0:
+        ctx.violation('tie-broken', {'translator_error': ctx.notes.get('translator_error')},
+                      'translator accepts the three box-bound kernels', 'fail-closed',
+                      'translator c16_bounds (gen/Bounds.v cannot be regenerated)', found_input=False,
+                      signature={'kind': 'tie-broken'})
+    if tie_ok and not valid_ok and n_bad == 0:
+        ctx.violation('tie-broken', {'translator_validation': ctx.notes.get('translator_validation')},
+                      'generated kernels agree with the Python text they were translated from',
+                      'disagree', 'translator validation (gen/Bounds.v)', found_input=False,
+                      signature={'kind': 'translator-validation'})
+    if tie_ok and not proof_ok and n_bad == 0:
         bad = [o['name'] for o in ctx.obligations if not o['discharged']]
         ctx.violation('proof-broken', {'theorems': bad}, 'Props.v compiles with closed theorems',
                       'does not check', ', '.join(bad), found_input=False,
